@@ -5,7 +5,7 @@ cd "$(dirname "$0")"
 export CARGO_NET_OFFLINE=true
 mkdir -p .build evidence
 python3 tools/gen_tables.py /repo coq/Gen/Tables.v
-TARGETS=$(for p in $(cat claims/READY); do echo Props/$p.vo; done)
+TARGETS="$(for p in $(cat claims/READY); do echo Props/$p.vo; done) $(ls coq/Corr/*.v | sed 's#^coq/##; s#\.v$#.vo#')"
 (cd coq && COQ_TIMEOUT=1400 ./mk.sh $TARGETS) 2>&1 | grep -v '^COQ\|Closed under the global context' || true
 for p in $(cat claims/READY); do test -f coq/Props/$p.vo || { echo "setup: coq/Props/$p.vo not built"; exit 1; }; done
 (cd /repo && RUSTFLAGS="--cfg agentpack_verif" CARGO_TARGET_DIR=/verif/.build/target cargo build --offline --quiet)
